@@ -8,7 +8,7 @@ import copy
 from ..cfg import build_cfg, calls_in, node_calls
 from ..core import Ctx, property_info, rule, share
 from ..model import AnalysisError, ClassInfo, FuncInfo, anon_text, walk_no_nested
-from ..q import Dispatch, alternatives, control_deps, leaves_at, raw_forms, truthy_guard, flow_conditions, flows, forms, call_name_of, guarded_subscripts, names_from_calls, return_values, A, MUTATORS, asrc, is_self_attr, kwarg, root_name, stores, unparse
+from ..q import Dispatch, passes, value_texts, func_text, call_param, reach_table, reach_env, node_containing, alternatives, control_deps, leaves_at, raw_forms, truthy_guard, flow_conditions, flows, forms, call_name_of, guarded_subscripts, names_from_calls, return_values, A, MUTATORS, asrc, is_self_attr, kwarg, root_name, stores, unparse
 
 SER = "xsdata.formats.dataclass.serializers"
 PAR = "xsdata.formats.dataclass.parsers"
@@ -523,59 +523,61 @@ def prefixes_resolved_never_matched(ctx: Ctx) -> None:
 @rule("C09.R4")
 def in_scope_map_reaches_resolvers(ctx: Ctx) -> None:
     """The ns_map argument of NodeParser.start reaches ParserUtils.xsi_type and every node constructor."""
+    P = lambda fi, c, param, *texts: passes(ctx, fi, c, param, *texts)  # noqa: E731
     st = ctx.repo.func(f"{PAR}.bases:NodeParser.start")
     n = 0
     for c in calls_in(st.node):
-        txt = unparse(c.func)
+        txt = func_text(st, c)
         if txt == "ParserUtils.xsi_type":
             n += 1
-            ctx.ob("NodeParser.start: xsi_type(attrs, ns_map)", [unparse(a) for a in c.args] == ["attrs", "ns_map"], at=st, node=c, msg="xsi:type of the root resolved with another map")
+            ctx.ob("NodeParser.start: xsi_type(attrs, ns_map)", P(st, c, "attrs", "attrs") and P(st, c, "ns_map", "ns_map"), at=st, node=c, msg="xsi:type of the root resolved with another map")
         if txt in ("ElementNode",):
             n += 1
-            ctx.ob("NodeParser.start: root ElementNode(ns_map=ns_map, attrs=attrs)", unparse(kwarg(c, "ns_map") or ast.Constant(0)) == "ns_map" and unparse(kwarg(c, "attrs") or ast.Constant(0)) == "attrs", at=st, node=c, msg="root node gets another map")
-        if call_name_of(c) == "child" and isinstance(c.func, ast.Attribute) and isinstance(c.func.value, ast.Name) and len(c.args) >= 3:
+            ctx.ob("NodeParser.start: root ElementNode(ns_map=ns_map, attrs=attrs)", P(st, c, "ns_map", "ns_map") and P(st, c, "attrs", "attrs"), at=st, node=c, msg="root node gets another map")
+        if call_name_of(c) == "child" and isinstance(c.func, ast.Attribute) and isinstance(c.func.value, ast.Name) and len(c.args) + len(c.keywords) >= 3:
             n += 1
-            ctx.ob("NodeParser.start: item.child(qname, attrs, ns_map, len(objects))", [unparse(a) for a in c.args] == ["qname", "attrs", "ns_map", "len(objects)"], at=st, node=c, msg="child created with other arguments")
+            ctx.ob("NodeParser.start: item.child(qname, attrs, ns_map, len(objects))", P(st, c, "qname", "qname") and P(st, c, "attrs", "attrs") and P(st, c, "ns_map", "ns_map") and P(st, c, "position", "len(objects)"),
+                   at=st, node=c, msg="child created with other arguments")
     ctx.floor("map hand-offs in NodeParser.start", n, 3)
     en = ctx.repo.cls(f"{PAR}.nodes.element:ElementNode")
     bn = en.methods["build_node"]
     k = 0
     for c in calls_in(bn.node):
-        txt = unparse(c.func)
+        txt = func_text(bn, c)
         if txt.startswith("nodes.") or txt == "self.build_element_node":
             k += 1
-            args = [unparse(a) for a in c.args] + [unparse(x.value) for x in c.keywords]
+            args = {t for a in [*c.args, *[x.value for x in c.keywords]] for t in value_texts(bn, c, a)}
             ctx.ob(f"build_node: {txt}(...) receives the element's ns_map", "ns_map" in args, at=bn, node=c, msg="a child node is built without the in-scope map")
         if txt == "ParserUtils.xsi_type":
             k += 1
-            ctx.ob("build_node: xsi_type(attrs, ns_map)", [unparse(a) for a in c.args] == ["attrs", "ns_map"], at=bn, node=c, msg="xsi:type resolved with another map")
+            ctx.ob("build_node: xsi_type(attrs, ns_map)", P(bn, c, "attrs", "attrs") and P(bn, c, "ns_map", "ns_map"), at=bn, node=c, msg="xsi:type resolved with another map")
     ctx.floor("node constructions in build_node", k, 7)
     be = en.methods["build_element_node"]
     for c in calls_in(be.node):
-        if unparse(c.func) == "ElementNode":
-            ctx.ob("build_element_node: ElementNode(ns_map=ns_map, attrs=attrs)", unparse(kwarg(c, "ns_map") or ast.Constant(0)) == "ns_map" and unparse(kwarg(c, "attrs") or ast.Constant(0)) == "attrs", at=be, node=c, msg="another map")
+        if func_text(be, c) == "ElementNode":
+            ctx.ob("build_element_node: ElementNode(ns_map=ns_map, attrs=attrs)", P(be, c, "ns_map", "ns_map") and P(be, c, "attrs", "attrs"), at=be, node=c, msg="another map")
     for m in ("bind_any_attr", "bind_wild_text"):
         fi = en.methods[m]
-        ok = any(unparse(c.func).startswith("ParserUtils.parse_any_attribute") and unparse(c.args[-1]) == "self.ns_map" for c in calls_in(fi.node))
+        ok = any(func_text(fi, c).startswith("ParserUtils.parse_any_attribute") and P(fi, c, "ns_map", "self.ns_map") for c in calls_in(fi.node))
         ctx.ob(f"ElementNode.{m} expands attribute values with self.ns_map", ok, at=fi, construct=f"{m} ns_map", msg="attribute QNames expanded with another map")
     wn = ctx.repo.func(f"{PAR}.nodes.wildcard:WildcardNode.bind")
-    ok = any(unparse(c.func) == "ParserUtils.parse_any_attributes" and [unparse(a) for a in c.args] == ["self.attrs", "self.ns_map"] for c in calls_in(wn.node))
+    ok = any(func_text(wn, c) == "ParserUtils.parse_any_attributes" and P(wn, c, "attrs", "self.attrs") and P(wn, c, "ns_map", "self.ns_map") for c in calls_in(wn.node))
     ctx.ob("WildcardNode.bind expands attribute values with self.ns_map", ok, at=wn, construct="wildcard attrs", msg="another map")
     wc = ctx.repo.func(f"{PAR}.nodes.wildcard:WildcardNode.child")
-    ok = any(unparse(c.func) == "WildcardNode" and unparse(kwarg(c, "ns_map") or ast.Constant(0)) == "ns_map" and unparse(kwarg(c, "attrs") or ast.Constant(0)) == "attrs" for c in calls_in(wc.node))
+    ok = any(func_text(wc, c) == "WildcardNode" and P(wc, c, "ns_map", "ns_map") and P(wc, c, "attrs", "attrs") for c in calls_in(wc.node))
     ctx.ob("WildcardNode.child passes the child's own ns_map / attrs", ok, at=wc, construct="wildcard child", msg="child generic elements share the parent's map")
     k2 = 0
     for cq in ("nodes.element:ElementNode", "nodes.primitive:PrimitiveNode", "nodes.standard:StandardNode", "nodes.union:UnionNode"):
         ci = ctx.repo.cls(f"{PAR}.{cq}")
         for m in ci.methods.values():
             for c in calls_in(m.node):
-                if unparse(c.func) == "ParserUtils.parse_var":
+                if func_text(m, c) == "ParserUtils.parse_var":
                     k2 += 1
-                    ctx.ob(f"{ci.name}.{m.name}: text is converted with the element's in-scope map (ns_map=self.ns_map)", unparse(kwarg(c, "ns_map") or ast.Constant(0)) == "self.ns_map", at=m, node=c,
+                    ctx.ob(f"{ci.name}.{m.name}: text is converted with the element's in-scope map (ns_map=self.ns_map)", P(m, c, "ns_map", "self.ns_map"), at=m, node=c,
                            msg="QName values are resolved without (or with another element's) prefix bindings")
     ctx.floor("parse_var call sites in nodes", k2, 5)
     tp = ctx.repo.func(f"{PAR}.tree:TreeParser.start")
-    ok = any(unparse(c.func) == "WildcardNode" and unparse(kwarg(c, "ns_map") or ast.Constant(0)) == "ns_map" for c in calls_in(tp.node))
+    ok = any(func_text(tp, c) == "WildcardNode" and P(tp, c, "ns_map", "ns_map") for c in calls_in(tp.node))
     ctx.ob("TreeParser.start builds the root WildcardNode with the element's ns_map", ok, at=tp, construct="tree root map", msg="another map")
 
 
@@ -607,3 +609,28 @@ def tail_normalisation(ctx: Ctx) -> None:
     bw = ctx.repo.func(f"{PAR}.nodes.element:ElementNode.bind_wild_text")
     normed = {unparse(c.args[0]) for c in calls_in(bw.node) if call_name_of(c) == "normalize_content" and c.args}
     ctx.ob("bind_wild_text normalises both text and tail", {"text", "tail"} <= normed, at=bw, construct="wild text normalised", msg="whitespace-only text/tail bound into generic elements")
+
+
+@rule("C09.R8")
+def unprefixed_attribute_values_stay_plain(ctx: Ctx) -> None:
+    """parse_any_attribute expands a lexical `prefix:local` value only when there IS a prefix: a value without a colon is never qualified with
+    the in-scope default namespace (the default namespace does not apply to attribute values of generic content)."""
+    pa = ctx.repo.func(f"{PAR}.utils:ParserUtils.parse_any_attribute")
+    prefixes = names_from_calls(pa.node, ("split",), index=0)
+    reads = [x for x in walk_no_nested(pa.node) if (isinstance(x, ast.Subscript) and isinstance(x.ctx, ast.Load) and unparse(x.value) == "ns_map" and isinstance(x.slice, ast.Name) and x.slice.id in prefixes)
+             or (isinstance(x, ast.Call) and isinstance(x.func, ast.Attribute) and x.func.attr == "get" and unparse(x.func.value) == "ns_map" and x.args and isinstance(x.args[0], ast.Name) and x.args[0].id in prefixes)]
+    if not reads or len(prefixes) != 1:
+        ctx.abstain(f"prefix lookup of parse_any_attribute (prefix locals {sorted(prefixes)})", at=pa)
+        return
+    p = next(iter(prefixes))
+    for r in reads:
+        tab = reach_table(pa, r, [{p: True, f"{p} is not None": True, f"{p} is None": False, f"{p} != ''": True, f"{p} == ''": False}], raw=True)
+        if tab is None:
+            ctx.abstain("prefix guard of parse_any_attribute", at=pa)
+        else:
+            ctx.ob("parse_any_attribute: the namespace of the prefix is looked up only for a non-empty prefix", tab == {(True,): True, (False,): False}, at=pa, node=r, construct="prefix required",
+                   msg="a value without a prefix is looked up under None: with a default namespace in scope every plain attribute value of generic content comes back as '{default-ns}value'")
+
+from .c03 import declare_before_use  # noqa: E402
+
+share("C08", "C08.R10", declare_before_use)  # lxml repairs a missing declaration itself, XMLGenerator does not: an undeclared prefix is where the two writers part
